@@ -1,6 +1,6 @@
 (* C03 — voting safety. Pinned statements only. *)
 From Coq Require Import List NArith.
-From HS Require Import GTac Node Proto Link NodeInv Global GlobalProps.
+From HS Require Import GTac Node Proto Link NodeInv Global GlobalProps NodeWireVotes.
 Import ListNotations.
 Open Scope N_scope.
 
@@ -21,3 +21,22 @@ Check c03_one_vote_per_round : forall (c : Committee) (honest : N -> bool),
   greach c honest g -> honest a = true ->
   In (HVote d1 q1 j1) (s_hist (g a)) -> In (HVote d2 q2 j2) (s_hist (g a)) -> dround d1 = dround d2 -> d1 = d2.
 Print Assumptions c03_one_vote_per_round.
+
+
+Check c03_wire_vote_recorded : forall (c : Committee) (me : N) (dq : DqCfg) (hint : list N) (e : Event) (s : State)
+  (to : N) (v : Vote),
+  In (OVote to v) (snd (fst (step c me dq hint e s))) ->
+  (exists q j, In (HVote (v_hash v) q j) (s_hist (fst (fst (step c me dq hint e s))))) /\
+  v_author v = me /\ v_round v = dround (v_hash v) /\
+  v_sig v = SigOf me (CVote (v_hash v) (v_round v)).
+Print Assumptions c03_wire_vote_recorded.
+Check c03_wire_timeout_recorded : forall (c : Committee) (me : N) (dq : DqCfg) (hint : list N) (e : Event) (s : State)
+  (t : Timeout),
+  In (OTimeout t) (snd (fst (step c me dq hint e s))) ->
+  In (HTimeout (t_round t) (qc_round (t_high_qc t))) (s_hist (fst (fst (step c me dq hint e s)))) /\
+  t_author t = me /\
+  t_sig t = SigOf me (CTimeout (t_round t) (qc_round (t_high_qc t))).
+Print Assumptions c03_wire_timeout_recorded.
+Check c03_hist_grows : forall (c : Committee) (me : N) (dq : DqCfg) (hint : list N) (e : Event) (s : State),
+  exists pre, s_hist (fst (fst (step c me dq hint e s))) = pre ++ s_hist s.
+Print Assumptions c03_hist_grows.
